@@ -377,3 +377,78 @@ def rejected_language_shape(auto, restrict):
     if done < len(useful):
         return False, None, len(order)
     return True, best, len(order)
+
+
+# --------------------------------------------------------------------------------------------
+# the language of one pin word:  A* f(u1) A* f(u2) ... A*   (own construction)
+# --------------------------------------------------------------------------------------------
+
+def pinword_factors(u):
+    """Numeral-led factors of a pin word: cut before every numeral."""
+    out = []
+    for c in u:
+        if c in "1234" or not out:
+            out.append(c)
+        else:
+            out[-1] += c
+    return out
+
+
+QUAD_LETTERS = {"1": ("R", "U"), "2": ("L", "U"), "3": ("L", "D"), "4": ("R", "D")}   # (horizontal, vertical)
+
+
+def factor_images(factor):
+    """The alternating words v with m_to_pinword(v) == factor: the numeral becomes the two letters
+    of its quadrant, in the order that keeps the word alternating with the first direction letter;
+    a lone numeral has both orders."""
+    h, v = QUAD_LETTERS[factor[0]]
+    rest = factor[1:]
+    if not rest:
+        return [h + v, v + h]
+    if rest[0] in VERT:
+        return [v + h + rest]
+    return [h + v + rest]
+
+
+def pinword_language_automaton(u):
+    """Deterministic automaton (Plain) of  A* f(u1) A* ... A*  by subset construction over the
+    position automaton: NFA states ("gap", i) = in the A* before factor i (i = number of factors:
+    accepting), (i, a, j) = j letters of alternative a of factor i read."""
+    segs = [factor_images(f) for f in pinword_factors(u)]
+    n = len(segs)
+
+    def step(states, c):
+        out = set()
+        for st in states:
+            if st[0] == "gap":
+                i = st[1]
+                out.add(st)
+                if i < n:
+                    for a, alt in enumerate(segs[i]):
+                        if alt[0] == c:
+                            out.add(("gap", i + 1) if len(alt) == 1 else (i, a, 1))
+            else:
+                i, a, j = st
+                alt = segs[i][a]
+                if alt[j] == c:
+                    out.add(("gap", i + 1) if j + 1 == len(alt) else (i, a, j + 1))
+        return frozenset(out)
+
+    start = frozenset({("gap", 0)})
+    delta = {}
+    order = [start]
+    seen = {start}
+    k = 0
+    while k < len(order):
+        s = order[k]
+        k += 1
+        row = {}
+        for c in DIRS:
+            t = step(s, c)
+            row[c] = t
+            if t not in seen:
+                seen.add(t)
+                order.append(t)
+        delta[s] = row
+    finals = {s for s in order if ("gap", n) in s}
+    return Plain(start, finals, delta)
